@@ -11,6 +11,7 @@ PERCENTILE_VALUE = dict(
     target="esrally/metrics.py::InMemoryMetricsStore.percentile_value",
     prop="C08",
     params={"sorted_values": "list[real]", "percentile": "real"},
+    returns="real",
     requires=[
         "len(sorted_values) >= 1",
         "0 <= percentile and percentile <= 100",
@@ -55,7 +56,93 @@ METRICS = dict(
     cover=["return"],
 )
 
-CONTRACTS = [PERCENTILE_VALUE, METRICS]
+# ------------------------------------------------------------------------------------------------ which percentiles are reported: a function of the sample count only
+ASC = "forall(lambda a, b: implies(0 <= a and a < b and b < len(result), result[a] < result[b]))"
+PFSS = dict(
+    target="esrally/metrics.py::percentiles_for_sample_size",
+    prop="C08",
+    params={"sample_size": "int"},
+    returns="list[real]",
+    pure=True,
+    ensures=[
+        "sample_size >= 1",
+        # strictly ascending, within (0, 100], always ends with the maximum (p100); the median (p50) is reported as soon as there are two samples
+        "len(result) >= 1 and result[len(result) - 1] == 100",
+        ASC,
+        "forall(lambda a: implies(0 <= a and a < len(result), 0 < result[a] and result[a] <= 100))",
+        "implies(sample_size >= 2, result[0] == 50)",
+        # the documented ladder: one more '9' per decade of samples (a percentile is only reported when at least one sample lies beyond it)
+        "len(result) == (1 if sample_size == 1 else 2 if sample_size < 10 else 3 if sample_size < 100 else 4 if sample_size < 1000 else 5 if sample_size < 10000 else 6)",
+        "implies(len(result) >= 3, result[1] == 90)",
+        "implies(len(result) >= 4, result[2] == 99)",
+        "implies(len(result) >= 5, result[3] == 99.9)",
+        "implies(len(result) >= 6, result[4] == 99.99)",
+    ],
+    raises={"AssertionError": dict(ensures=["sample_size < 1"])},
+    cover=["return", "raise:AssertionError"],
+)
+
+# ------------------------------------------------------------------------------------------------ percentiles / stats of a metric: computed from the SORTED values of exactly the queried records
+def sorted_fact(x):
+    return SORTED.replace("(s)", f"({x})").replace("s[", f"{x}[")
+
+
+# CPython's sorted() on numbers (assumed): same length, ascending, a rearrangement (every element of one occurs in the other)
+SORTED_EXT = dict(returns="list[real]", ghost_update=("$sv", "result"),
+                  ensures=["len(result) == len(a0)", sorted_fact("result"),
+                           "forall(lambda a: implies(0 <= a and a < len(result), exists(lambda b: 0 <= b and b < len(a0) and result[a] == a0[b])))",
+                           "forall(lambda b: implies(0 <= b and b < len(a0), exists(lambda a: 0 <= a and a < len(result) and result[a] == a0[b])))"])
+STORE_FIELDS = {"InMemoryMetricsStore.docs": "list[any]"}
+QUERY = {"name": "str", "task": "any", "operation_type": "any", "sample_type": "any"}
+GET_EXT = dict(params=[("name", None), ("task", None), ("operation_type", None), ("sample_type", None), ("node_name", None)], returns="list[real]", ghost_update=("$vals", "result"))
+# the store is queried with exactly the caller's filters (name, task, operation type, SAMPLE TYPE): what is computed is computed from those records only
+GET_ARGS = ["a0 == name and a1 == task and a2 == operation_type and a3 == sample_type"]
+GET_PERCENTILES = dict(
+    target="esrally/metrics.py::InMemoryMetricsStore.get_percentiles",
+    prop="C08",
+    self_type="obj[InMemoryMetricsStore]",
+    params=dict(QUERY, percentiles="opt[list[real]]"),
+    fields=STORE_FIELDS,
+    macros=PV,
+    ghost_state={"$vals": "list[real]", "$sv": "list[real]"},
+    externals={"self.get": GET_EXT, "sorted": SORTED_EXT, "collections.OrderedDict": dict(new_dict=("real", "real"))},
+    at_call={"self.get": GET_ARGS, "sorted": ["ref(a0) == ref($vals)"]},
+    # the results pipeline always names the percentiles it wants (percentiles_for_sample_size); the default list [99, 99.9, 100] is outside the property
+    requires=["not isnone(percentiles)", "implies(not isnone(percentiles), forall(lambda j: implies(0 <= j and j < len(percentiles), 0 <= percentiles[j] and percentiles[j] <= 100)))"],
+    returns="dict[real,real]",
+    loops={0: dict(modifies_objs=["result"], inv=["len($vals) > 0 and len($sv) == len($vals) and " + sorted_fact("$sv"), "ref(result) != ref($sv) and ref(result) != ref(percentiles)",
+                        "forall(lambda j: implies(0 <= j and j < _i, has(result, percentiles[j]) and result[percentiles[j]] == PV($sv, percentiles[j])))",
+                        ])},
+    ensures=[
+        # no values -> nothing reported
+        "implies(len($vals) == 0 and not isnone(old(percentiles)), forall(lambda j: implies(0 <= j and j < len(old(percentiles)), not has(result, old(percentiles)[j]))))",
+        # every requested percentile is reported, with the linear-interpolation value over the sorted values of the query
+        "implies(len($vals) > 0 and not isnone(old(percentiles)), forall(lambda j: implies(0 <= j and j < len(old(percentiles)), "
+        "has(result, old(percentiles)[j]) and result[old(percentiles)[j]] == PV($sv, old(percentiles)[j]))))",
+    ],
+    cover=["return"],
+)
+GET_STATS = dict(
+    target="esrally/metrics.py::InMemoryMetricsStore.get_stats",
+    prop="C08",
+    self_type="obj[InMemoryMetricsStore]",
+    params=dict(QUERY),
+    fields=STORE_FIELDS,
+    ghost_state={"$vals": "list[real]", "$sv": "list[real]"},
+    externals={"self.get": GET_EXT, "sorted": SORTED_EXT, "statistics.mean": dict(returns="real", pure=True, uf="MEAN"), "sum": dict(returns="real", pure=True, uf="SUM")},
+    at_call={"self.get": GET_ARGS, "sorted": ["ref(a0) == ref($vals)"]},
+    returns="opt[rec{count:int,min:real,max:real,avg:real,sum:real}]",
+    ensures=[
+        "(result is None) == (len($vals) == 0)",
+        # count / min / max agree with the raw values of the query: min and max are attained and bound every value
+        "implies(result is not None, result['count'] == len($vals))",
+        "implies(result is not None, forall(lambda b: implies(0 <= b and b < len($vals), result['min'] <= $vals[b] and $vals[b] <= result['max'])))",
+        "implies(result is not None, exists(lambda b: 0 <= b and b < len($vals) and $vals[b] == result['min']) and exists(lambda b: 0 <= b and b < len($vals) and $vals[b] == result['max']))",
+    ],
+    cover=["return"],
+)
+
+CONTRACTS = [PERCENTILE_VALUE, METRICS, PFSS, GET_PERCENTILES, GET_STATS]
 ASSUMPTIONS = ["exact-real arithmetic for percentile interpolation (floats as reals)"]
 NOT_DECIDED = ["InMemoryMetricsStore filters / get_stats / error rate, result assembly (GlobalStatsCalculator.__call__) and the race.json round trip are covered by the bounded stand-in and the call-site obligations only"]
 TRUSTED = []
